@@ -8,15 +8,20 @@ from props import _lay
 
 LEVEL = "proof"
 MODULE = "Phil.Props.C13"
-LEVEL_TEXT = ("Lean theorems about the include model over an abstract file system: expansion terminates with fuel = number of "
-              "files + 1 (the include stack holds distinct files), a file already on the stack is refused with the cycle error, "
-              "files without include statements expand to their own parse, relative names are resolved against the includer's "
-              "directory (path normalisation lemmas). The model is tied to /repo by a correspondence run on real files in a "
-              "scratch directory tree (current directory elsewhere); the oracle compares parse(file, process_includes) with "
-              "parse of the independently inlined text, and checks that a cycle is reported iff the graph has one reachable "
-              "from the root, with the reported chain.")
-LEVEL_NOTE = ("os.path and open() are CPython/OS (no symlinks); 'include scope' is checked by the oracle only (Python import). "
-              "The equality expand = parse(inlined text) is oracle-checked, not proved (it needs parser compositionality).")
+LEVEL_TEXT = ("Lean theorems about the include model over an abstract file system and an import table (IncEnv: files, python "
+              "import path -> text of the imported scope, current directory): a file already on the include stack is refused with "
+              "the cycle error (also when the chain runs through imported scopes: file_cycle_through_scope_detected), expansion "
+              "never runs out of fuel when imported scopes refer only to scopes of higher rank (expand_never_out_of_fuel, "
+              "ImportsRanked is necessary: loop_out_of_fuel), files without include statements expand to their own parse, "
+              "'include file' splices the expansion of the named file resolved against the includer's directory, 'include scope' "
+              "splices the imported scope after ITS includes have been expanded against the current directory "
+              "(include_scope_inlines, include_scope_refdir), a sub-path selects from the expanded scope and an empty selection is "
+              "refused (include_scope_subpath, include_scope_expands_first). The model is tied to /repo by a correspondence run on "
+              "a real scratch directory tree (current directory elsewhere) and a synthetic importable module; the oracle compares "
+              "parse(file, process_includes) with the parse of the textually inlined document and checks the reported cycle chain.")
+LEVEL_NOTE = ("os.path and open() are CPython/OS (no symlinks); the Python import is a parameter (import path -> text; strings, "
+              "scope objects and callables returning scopes all reduce to the text they were parsed from); a failing import and "
+              "imported scopes that include each other cyclically (Python recurses without bound there) are outside the model.")
 TECHNIQUE = "Lean 4 theorems on the include-stack model + differential correspondence on real files + textual-inlining oracle"
 RULE = ("all directed include graphs over 3 files with <= 2 includes each (chains, diamonds, self-loops, longer cycles, cycles not "
         "through the root) and random graphs over 4 files, includes at top level or inside scopes, files in different "
@@ -172,6 +177,10 @@ def run(ctx):
         if f:
             ctx.fail({"include_scope": True}, f)
         include_scope_generated(rng, ctx, ctx.scale(150, 3000, 600))
+        for _ in range(ctx.scale(400, 8000, 1500)):
+            if ctx.time_left() < 20:
+                break
+            mixed_round(rng, ctx, base, cases, reqs, impls)
     finally:
         os.chdir(cwd)
         shutil.rmtree(base, ignore_errors=True)
@@ -276,6 +285,84 @@ def include_scope_generated(rng, ctx, rounds):
                              "include scope differs from splicing the selection of the expanded imported scope at %s" % d)
         finally:
             sys.modules.pop(INC_MOD, None)
+
+
+def mixed_round(rng, ctx, base, cases, reqs, impls):
+    """files and importable scopes including each other (scopes only later scopes, so every unbounded chain repeats a
+    file): parse(file, process_includes) against the model's expand with the import table and the current directory"""
+    import sys
+    import types
+    nf, ns = rng.randint(1, 3), rng.randint(1, 3)
+    cwdir = os.getcwd()
+
+    def fname(i, by_scope):
+        pth = file_path(base, i)
+        k = rng.random()
+        if k < 0.4:
+            return pth
+        if by_scope is not None:
+            return os.path.relpath(pth, cwdir)          # an imported scope's relative names go against the current directory
+        return os.path.relpath(pth, os.path.dirname(file_path(base, by_scope if by_scope is not None else 0)))
+
+    def body(owner_file, owner_scope):
+        lines = []
+        for _ in range(rng.randint(1, 4)):
+            k = rng.random()
+            ind = ""
+            if k < 0.3:
+                lines.append("%s = %d" % (rng.choice("abxy"), rng.randint(0, 9)))
+            elif k < 0.45:
+                lines.append("%s {\n  %s = %d\n}" % (rng.choice("rst"), rng.choice("abxy"), rng.randint(0, 9)))
+            elif k < (0.55 if owner_scope is not None else 0.7):
+                j = rng.randrange(nf)
+                if owner_file is not None and rng.random() < 0.7:
+                    j = min(nf - 1, owner_file + 1)      # mostly forward, so that most graphs are acyclic
+                if owner_scope is not None:
+                    nm = fname(j, owner_scope)
+                else:
+                    pth = file_path(base, j)
+                    nm = pth if rng.random() < 0.3 else os.path.relpath(pth, os.path.dirname(file_path(base, owner_file)))
+                st = "include file %s" % nm
+                lines.append(st if rng.random() < 0.7 else "w {\n  %s\n}" % st)
+            else:
+                lo = 0 if owner_scope is None else owner_scope + 1
+                if lo >= ns:
+                    lines.append("%s = %d" % (rng.choice("abxy"), rng.randint(0, 9)))
+                    continue
+                j = rng.randint(lo, ns - 1)
+                sub = rng.choice(["", "", "", "", "", " a", " b", " x", " y", " r", " s", " t", " w", " r.a", " w.x", " a b"])
+                st = "include scope %s.t%d%s" % (INC_MOD, j, sub)
+                lines.append(st if rng.random() < 0.7 else "w {\n  %s\n}" % st)
+        return "\n".join(lines) + "\n"
+    mod = types.ModuleType(INC_MOD)
+    sys.modules[INC_MOD] = mod
+    try:
+        stexts = [body(None, k) for k in range(ns)]
+        ftexts = [body(i, None) for i in range(nf)]
+        for k, t in enumerate(stexts):
+            kind = rng.choice(["str", "scope", "call"])
+            val = t
+            if kind != "str":
+                sc = freephil.parse(input_string=t)
+                val = sc if kind == "scope" else (lambda sc=sc: sc)
+            setattr(mod, "t%d" % k, val)
+        for i, t in enumerate(ftexts):
+            with open(file_path(base, i), "w") as f:
+                f.write(t)
+        root = file_path(base, 0)
+        case = {"files": ftexts, "scopes": stexts}
+        ctx.case(("mixed", tuple(ftexts), tuple(stexts)))
+        ia = call_j(lambda: freephil.parse(file_name=root, process_includes=True),
+                    lambda r: [obj_j(o, with_ids=True, with_lines=True) for o in r.objects])
+        ctx.count("mixed_" + (ia[0] if ia[0] == "ok" else str(ia[2])))
+        if ia[0] == "err" and ia[1] != "runtime":
+            ctx.fail(case, "files and scopes including each other raised %s" % (ia[1:3],))
+        cases.append(case)
+        reqs.append(["expand", [[enc(file_path(base, i)), enc(t)] for i, t in enumerate(ftexts)], enc(root),
+                     [[enc("%s.t%d" % (INC_MOD, k)), enc(t)] for k, t in enumerate(stexts)], enc(cwdir)])
+        impls.append(ia)
+    finally:
+        sys.modules.pop(INC_MOD, None)
 
 
 def include_scope_oracle():
